@@ -307,7 +307,11 @@ class StackPartition(Concat):
         for df in self._frames:
             try:
                 check_meta(df._meta, self._meta)
-                match = True
+                # check_meta does not compare the names: a partition that is
+                # passed through keeps its own
+                match = df._meta.index.names == self._meta.index.names and (
+                    df.ndim == 2 or df._meta.name == self._meta.name
+                )
             except (ValueError, TypeError):
                 match = False
 
